@@ -69,6 +69,7 @@ DRIVER = r'''
 #include <type_traits>
 #include <vector>
 #include <utility>
+#include <map>
 #include "prog.emb.h"
 #include "ref_bits.h"
 using namespace refbits;
@@ -94,7 +95,8 @@ static std::string i128s(i128 v) {
 }
 static void report(const char *what, const char *name, const unsigned char *buf, const std::string &got, const std::string &want) {
   ++g_mism;
-  if (g_printed++ < 40) {
+  static std::map<std::string, int> per_kind;
+  if (per_kind[what]++ < 12 && g_printed++ < 200) {
     std::string h; hexs(h, buf, NB);
     std::printf("MISMATCH %s %s buf=%s got=%s want=%s\n", what, name, h.c_str(), got.c_str(), want.c_str());
   }
